@@ -59,12 +59,21 @@ def arith(ip, opn, a, b):
             d.d.update(b.d)
             return d
         if isinstance(a, PSet) and isinstance(b, PSet):
+            def member(x, other):
+                return ip.vc.decide(zor(*[ip.values_eq(x, y) for y in other.items]))
             if opn == "BitOr":
-                return PSet(a.items + b.items)
+                out = PSet(a.items)
+                for y in b.items:
+                    if not member(y, out):
+                        out.items.append(y)
+                return out
             if opn == "BitAnd":
-                return PSet([x for x in a.items if x in b.items])
+                return PSet([x for x in a.items if member(x, b)])
             if opn == "Sub":
-                return PSet([x for x in a.items if x not in b.items])
+                return PSet([x for x in a.items if not member(x, b)])
+            if opn == "BitXor":
+                return PSet([x for x in a.items if not member(x, b)] +
+                            [y for y in b.items if not member(y, a)])
         if isinstance(a, (SymSet,)) or isinstance(b, (SymSet,)):
             return set_arith(ip, opn, a, b)
         try:
